@@ -306,7 +306,13 @@ func c01BuildScenario(rnd *rand.Rand, profile string, idx int) *c01Scenario {
 		sc.TrafficSec = 42
 		sc.AggFlags = []string{"--recent-inserters=1"}
 		for rep := 0; rep < 3; rep++ {
-			add(int64(4+rep*12)*1000+int64(rnd.IntN(2000)), "chdelay", perm[rep], c01Ms(rnd, 7, 9), 2)
+			at := int64(4+rep*12)*1000 + int64(rnd.IntN(2000))
+			add(at, "chdelay", perm[rep], c01Ms(rnd, 7, 9), 2)
+			// connections cut while the only inserter is busy: the recent send fails at once, the historic
+			// re-send lands in the still-recent bucket and meets the full conveyor (keep to a historic request)
+			for _, d := range []int64{4000, 7500, 11000} {
+				add(at+d+int64(rnd.IntN(800)), "cut", perm[rep], 0, 0)
+			}
 		}
 		add(c01Ms(rnd, 2, 30), "ch500a", -1, 0, 1)
 		sc.Mandatory = []string{"failed-insert", "keep", "conveyor-full"}
@@ -1194,6 +1200,16 @@ func c01Main(t *testing.T, unit string, aggEnv string, maxParallel int, quick []
 	profiles := quick
 	if r.Thorough() {
 		profiles = thorough
+	}
+	if only := os.Getenv("VERIF_C01_ONLY"); only != "" { // debugging aid: run the profiles whose name contains the value
+		var sel []string
+		for _, p := range profiles {
+			if strings.Contains(p, only) {
+				sel = append(sel, p)
+			}
+		}
+		profiles = sel
+		r.Assume("VERIF_C01_ONLY=" + only + ": partial run (debugging)")
 	}
 	var wg sync.WaitGroup
 	sem := make(chan struct{}, maxParallel)
